@@ -161,3 +161,8 @@ BOUNDS = {
 }
 OUTSIDE = ["sequences longer than the bound, more group handles than G", "keys whose equality is not reflexive", "closing group handles (C04)"]
 NONTRIVIAL_RULE = "(for non-empty input) >=1 group obtained and >=1 group item served on the path"
+
+MANIFEST = {
+    "text": 'Items with unconstrained integer keys (every partition into runs is a path) or None/plain values, and every operation sequence over {advance groupby, advance handle i}, compared step by step with itertools.groupby driven by the same operations: key objects, item identity, stop signals. Nothing is claimed outside the bounds listed in the evidence file.',
+    "note": 'Trusted: CrossHair 0.0.110 (with short-circuiting off and a refined callable() model), z3 5.1.0, the harness oracles. Only adjacent-key equality matters to groupby; keys are ints so equality is reflexive.',
+}
